@@ -50,7 +50,11 @@ def cache_cases(draw):
   writer = []
   for _ in range(draw(st.integers(0, 8))):
     writer.append(['drain'] if draw(st.integers(0, 4)) else ['wait', 0.1])
-  return {'side': 'cache', 'strategy': strategy, 'max_cache_size': draw(st.integers(1, 6)), 'flow': True,
+  mcs = draw(st.integers(1, 6))
+  extra = {}
+  if draw(st.integers(0, 2)) == 0:
+    extra['prefill'] = [['recv_connect']] + [['store', c02.METRICS[i % 3], 10 + i, 100 + i] for i in range(mcs + draw(st.integers(0, 1)))]
+  return {'side': 'cache', 'strategy': strategy, 'max_cache_size': mcs, 'flow': True, **extra,
           'programs': [recv, writer], 'switches': draw(c02.switch_lists(max_switches=10, max_gap=50)),
           'choices': draw(st.lists(st.integers(0, 4), max_size=8)), 'first': draw(st.integers(0, 1))}
 
@@ -68,6 +72,13 @@ def execute_cache(ctx, case):
     def count_resume():
       seen['resumes'] += 1
     b.events.resumeReceivingMetrics.handlers.append(count_resume)
+    # history before the two threads start (sequential): typically a client connects and fills the cache, so
+    # that the threads start with receivers paused
+    for spec in case.get('prefill', []):
+      if spec[0] == 'recv_connect':
+        recv_connect(run, sched, spec)
+      else:
+        run.cache.store(spec[1], (spec[2], spec[3]))
 
   def recv_connect(run, sched, spec):
     r = b.protocols.MetricLineReceiver()
@@ -86,7 +97,11 @@ def execute_cache(ctx, case):
   def post(run, sched, Op):
     # the writer goes on until nothing is drainable
     for _ in range(len(run.cache) * 2 + 6):
-      m, pts = run.cache.drain_metric()
+      try:
+        m, pts = run.cache.drain_metric()
+      except Exception as e:  # noqa: judged below
+        seen['post_exc'] = e
+        break
       if m is None:
         break
 
@@ -100,6 +115,12 @@ def execute_cache(ctx, case):
       if op.exc is not None:
         ctx.fail('C09:operation-raised:%s' % type(op.exc).__name__, '%s raised %r' % (op.op, op.exc), case)
         return
+  if seen.get('post_exc') is not None:
+    ctx.fail('C09:operation-raised:%s' % type(seen['post_exc']).__name__, 'the writer\'s drain raised %r' % (seen['post_exc'],), case)
+    return
+  if low is None:
+    ctx.fail('C09:low-watermark-derivation', 'daemon start-up derives no CACHE_SIZE_LOW_WATERMARK under flow control', case)
+    return
   if seen['unpaused_connect']:
     ctx.fail('C09:connection-made-while-paused-not-paused', 'a receiver connected while receivers were paused (no resume in '
              'between) and its transport was left producing', case, 'paused-too')
@@ -122,6 +143,8 @@ def execute_cache(ctx, case):
                'is %r' % (paused, was_paused, st_), case, 'all-receivers')
       return
   classes = ['cache', case['strategy'], 'max=%d' % case['max_cache_size']]
+  if case.get('prefill'):
+    classes.append('threads start with receivers paused')
   if seen['paused_once']:
     classes.append('pause occurred')
   if any(wp for _, wp in receivers):
@@ -233,7 +256,7 @@ def execute_relay(ctx, case):
   if abs(t.low - low) > 1e-9:
     ctx.fail('C09:low-watermark-derivation', 'SEND_QUEUE_LOW_WATERMARK derived as %r, documented %r' % (t.low, low), case)
     return
-  queues = {d: len(q) for d, q in t.final_queues.items()}
+  queues = dict(t.final_queue_lens)      # everything queued, the relay's own periodic metrics included
   all_low = all(n < low for n in queues.values())
   no_dest = case['dynamic'] and not t.router_dests
   ever_paused = any(t.paused_history)
@@ -275,6 +298,15 @@ FIXED_CACHE = [
 ]
 
 
+# the threads start with receivers already paused (sequential prefix): a new connection against the writer's resume
+PREFILLED = [
+  {'prefill': [['recv_connect'], ['store', 'a', 1, 1], ['store', 'a', 2, 2], ['store', 'b', 1, 3]],
+   'programs': [[['recv_connect']], [['drain'], ['drain']]]},
+  {'prefill': [['recv_connect'], ['store', 'a', 1, 1], ['store', 'b', 1, 2], ['store', 'c', 1, 3]],
+   'programs': [[['recv_connect'], ['store', 'd', 1, 4]], [['drain'], ['drain'], ['drain']]]},
+]
+
+
 def enumerate_cache(ctx):
   """every placement of one preemption (thorough: also of two) for fixed workloads: the windows inside
   connectionMade / store / drain around the fullness checks."""
@@ -295,6 +327,20 @@ def enumerate_cache(ctx):
         for j in range(i + 1, n, 2):
           execute(ctx, dict(base, switches=[[i, 1], [j, 1]]))
           total += 1
+  for pi, pf in enumerate(PREFILLED):
+    for s in ('sorted', 'max'):
+      for mcs in (1, 2):
+        if not ctx.quick and (pi * 4 + mcs) % ctx.nshards != (ctx.shard or 0):
+          continue
+        base = dict(pf, side='cache', strategy=s, max_cache_size=mcs, flow=True, switches=[], choices=[], first=1)
+        for i in range(1, 200):
+          execute(ctx, dict(base, switches=[[i, 1]]))
+          total += 1
+        if not ctx.quick:
+          for i in range(1, 200, 2):
+            for j in range(i + 1, 200, 3):
+              execute(ctx, dict(base, switches=[[i, 1], [j, 1]]))
+              total += 1
   ctx.extra['bounded_preemption_runs'] = total
 
 
